@@ -48,7 +48,7 @@ Reset == /\ Ev.ev = "reset"
 PickStart ==
     /\ Ev.ev = "pick_start"
     /\ rs' = Upd(rs, Ev.r, [floor |-> swapped, last |-> 0 - 1, kind |-> "none", sc |-> "", code |-> 0, msg |-> "",
-                            pend |-> 0, nrchk |-> FALSE, ff |-> Ev.ff, active |-> TRUE])
+                            pend |-> 0, nrchk |-> FALSE, ff |-> Ev.ff, active |-> TRUE, ub |-> 0 - 1])
     /\ UNCHANGED <<swapped, updating, cnt, nr, parked, cset, pre>>
 
 IsSc(k) == k \in {"ok", "notready"}
@@ -117,7 +117,11 @@ Parked == /\ Ev.ev = "parked" /\ parked' = parked \cup {Ev.r}
           /\ Mark(~updating /\ Stale(Ev.r), "I_Wake", l)
           /\ UNCHANGED <<swapped, updating, rs, cnt, nr, cset, pre>>
 Unblocked == /\ Ev.ev = "unblocked" /\ parked' = parked \ {Ev.r} /\ pre' = pre \ {Ev.r}
-             /\ rs' = IF Known(Ev.r) THEN Upd(rs, Ev.r, [rs[Ev.r] EXCEPT !.floor = MaxOf(@, swapped)]) ELSE rs
+             /\ rs' = IF Known(Ev.r) THEN Upd(rs, Ev.r, [rs[Ev.r] EXCEPT !.floor = MaxOf(@, swapped), !.ub = swapped]) ELSE rs
+             \* a pick leaves the select without returning only because its generation channel was closed, i.e. a
+             \* generation newer than at its previous wake-up was installed: it never spins (in particular a
+             \* pick whose context has ended - whatever the cause - returns instead of looping)
+             /\ Mark(Known(Ev.r) /\ swapped <= rs[Ev.r].ub, "I_Wake", l)
              /\ UNCHANGED <<swapped, updating, cnt, nr, cset>>
 
 \* a publication by the LB policy (a call of updatePicker) starts: remember who is parked
